@@ -51,7 +51,8 @@ MANIFEST = {
 }
 
 statuses = st.sampled_from(["0.00", "12.50", "50.00", "99.99", "100.00", "x"])
-ds = st.sampled_from([["t", "0"], ["t", "1"], ["u", "0"]])
+# ("t.0", "1") and ("t", "0.1") both print as "t.0.1"
+ds = st.sampled_from([["t", "0"], ["t", "1"], ["u", "0"], ["t.0", "1"], ["t", "0.1"]])
 
 
 @st.composite
@@ -61,7 +62,7 @@ def histories(draw):
     for _ in range(draw(st.integers(0, 3))):  # usually a few jobs exist before reports and queries start
         ops.append(["submit", draw(st.lists(st.integers(0, 3), max_size=4))])
     for _ in range(n):
-        k = draw(st.sampled_from(["submit", "report", "report", "report", "rreport", "rreport", "shutdown", "progress", "progress", "result", "result"]))
+        k = draw(st.sampled_from(["submit", "report", "report", "report", "rreport", "rreport", "burst", "shutdown", "progress", "progress", "result", "result"]))
         if k == "submit":
             ops.append(["submit", draw(st.lists(st.integers(0, 3), max_size=4))])
         elif k == "report":
@@ -76,6 +77,17 @@ def histories(draw):
                         draw(ds), draw(st.binary(min_size=0, max_size=6))])
         elif k == "shutdown":
             ops.append(["shutdown", draw(st.integers(0, 3)), draw(st.integers(0, 12))])
+        elif k == "burst":
+            # several reports of one job waiting on its socket at one wake-up of the gateway (it was busy meanwhile); a shutdown
+            # notice, if any, is the last of them
+            j = draw(st.integers(0, 3))
+            subs = []
+            for _b in range(draw(st.integers(2, 3))):
+                subs.append(["report", j, draw(st.integers(0, 12)), draw(st.one_of(st.none(), statuses)),
+                             draw(st.lists(st.tuples(ds, st.binary(min_size=0, max_size=6)).map(list), max_size=1))])
+            if draw(st.booleans()):
+                subs.append(["shutdown", j, draw(st.integers(0, 12))])
+            ops.append(["burst", j, subs])
         elif k == "progress":
             ops.append(["progress", draw(st.lists(st.integers(-1, 3), max_size=3))])
         else:
@@ -84,11 +96,19 @@ def histories(draw):
 
 
 class _CtrlSock:
-    def __init__(self, raw: bytes):
-        self.raw = raw
+    """The job's PULL socket as the gateway sees it when poll() says it is readable: one or more reports are waiting."""
 
-    def recv(self) -> bytes:
-        return self.raw
+    def __init__(self, raws: list[bytes]):
+        self.queue = list(raws)
+
+    def recv(self, flags: int = 0, *a, **k) -> bytes:
+        if self.queue:
+            return self.queue.pop(0)
+        import zmq as real_zmq
+
+        if flags & real_zmq.NOBLOCK:
+            raise real_zmq.Again()
+        raise common.HarnessError("gateway blocks on a controller socket that has nothing to read")
 
 
 class _FeSock:
@@ -220,49 +240,67 @@ def _run(ops, net, fz, uu, spawned):
             model[r.job_id] = {"cands": {-1: {"0.00"}}, "best": -1, "results": {}, "down": False}
             if any(x in [int(i[2:]) for i in ids[:-1] if i.startswith("id")] for x in op[1][:1]):
                 classes.add("uuid_collision")
-        elif op[0] in ("report", "shutdown", "rreport"):
+        elif op[0] in ("report", "shutdown", "rreport", "burst"):
             if not ids:
                 continue
             jid = ids[op[1] % len(ids)]
-            raw_override = None
-            if op[0] == "rreport":
-                _k, _j, ts_, what, remaining, total, d_, b_ = op
-                raw_override = _reporter_bytes(jid, ts_, what, remaining, total, DatasetId(d_[0], d_[1]), b_)
-                classes.add("via_real_reporter")
-                if what == "shutdown":
-                    op = ["shutdown", op[1], ts_]
-                elif what == "result":
-                    op = ["report", op[1], ts_, None, [[d_, b_]]]
-                else:
-                    # the progress string the Reporter documents: percentage done with two decimals, without the percent sign
-                    op = ["report", op[1], ts_, f"{100.0 * (1.0 - remaining / total):.2f}", []]
             m = model[jid]
             if m["down"]:
                 classes.add("report_after_shutdown_not_delivered")
                 continue
-            ts = op[2]
-            if op[0] == "shutdown":
-                rep = report.ControllerReport(jid, report.JobProgressShutdown, ts, [])
-            else:
-                rep = report.ControllerReport(jid, op[3], ts, [(DatasetId(d[0], d[1]), b) for d, b in op[4]])
-            try:
-                server.handle_controller(_CtrlSock(raw_override if raw_override is not None else report.serialize(rep)), jobs)
-            except Exception as e:
-                raise Violation(f"controller handler raised {type(e).__name__}: {e} on {rep!r}", "ctrl-raises")
-            if op[0] == "shutdown":
-                m["down"] = True
-                classes.add("shutdown")
-            else:
-                if op[3] is not None:
-                    if ts < m["best"]:
-                        ooo += 1
-                        classes.add("out_of_order_report")
-                    elif ts == m["best"]:
-                        classes.add("duplicate_timestamp")
-                    m["cands"].setdefault(ts, set()).add(op[3])
-                    m["best"] = max(m["best"], ts)
-                for d, b in op[4]:
-                    m["results"].setdefault((d[0], d[1]), []).append(b)
+            subs = op[2] if op[0] == "burst" else [op]
+            if op[0] == "burst":
+                classes.add("backlog_of_reports_at_one_wakeup")
+            raws = []
+            norm = []
+            for so in subs:
+                raw_override = None
+                if so[0] == "rreport":
+                    _k, _j, ts_, what, remaining, total, d_, b_ = so
+                    raw_override = _reporter_bytes(jid, ts_, what, remaining, total, DatasetId(d_[0], d_[1]), b_)
+                    classes.add("via_real_reporter")
+                    if what == "shutdown":
+                        so = ["shutdown", so[1], ts_]
+                    elif what == "result":
+                        so = ["report", so[1], ts_, None, [[d_, b_]]]
+                    else:
+                        # the progress string the Reporter documents: percentage done with two decimals, without the percent sign
+                        so = ["report", so[1], ts_, f"{100.0 * (1.0 - remaining / total):.2f}", []]
+                ts = so[2]
+                if so[0] == "shutdown":
+                    rep = report.ControllerReport(jid, report.JobProgressShutdown, ts, [])
+                else:
+                    rep = report.ControllerReport(jid, so[3], ts, [(DatasetId(d[0], d[1]), b) for d, b in so[4]])
+                raws.append(raw_override if raw_override is not None else report.serialize(rep))
+                norm.append(so)
+            sock = _CtrlSock(raws)
+            # the serve loop calls the handler as long as poll() reports the socket readable
+            while sock.queue:
+                before = len(sock.queue)
+                try:
+                    server.handle_controller(sock, jobs)
+                except common.HarnessError:
+                    raise
+                except Exception as e:
+                    raise Violation(f"controller handler raised {type(e).__name__}: {e} with reports {norm!r} waiting", "ctrl-raises")
+                if len(sock.queue) >= before:
+                    raise Violation("controller handler returned without reading the readable socket", "ctrl-reads-nothing")
+            for so in norm:
+                ts = so[2]
+                if so[0] == "shutdown":
+                    m["down"] = True
+                    classes.add("shutdown")
+                else:
+                    if so[3] is not None:
+                        if ts < m["best"]:
+                            ooo += 1
+                            classes.add("out_of_order_report")
+                        elif ts == m["best"]:
+                            classes.add("duplicate_timestamp")
+                        m["cands"].setdefault(ts, set()).add(so[3])
+                        m["best"] = max(m["best"], ts)
+                    for d, b in so[4]:
+                        m["results"].setdefault((d[0], d[1]), []).append(b)
         elif op[0] == "progress":
             req_ids = []
             unknown = False
